@@ -4,25 +4,33 @@ import json, os, collections
 READY = True
 
 META = {
-    "technique": "Lean 4 proof of a taint-soundness invariant of the safe-bit calculus (tainted characters, Safe bit, "
-                 "capture/emit/macro steps, per-filter models) + differential correspondence of every builtin/contrib "
-                 "filter and of generated programs against the real engine",
+    "technique": "Lean 4 proof of a taint-soundness invariant of the safe-bit calculus, stated over template PROGRAMS "
+                 "(big-step interpreter execProg of an AST with macros, call blocks, captures, includes, inheritance) + "
+                 "differential correspondence: every registered filter/function/pycompat method and generated programs, "
+                 "engine vs. the Lean interpreter",
     "category": "proof",
-    "text": "Kernel-checked: a Safe string never holds a < > \" ' that came from data (Inv); every primitive step the "
-            "engine performs on strings (emit, capture, macro return, every operator, every filter model incl. the "
-            "safety-aware replace/join/format/truncate) preserves Inv in Html mode, hence for EVERY step sequence nothing "
-            "data-tainted is written raw; emit∘endCapture is the identity (escaped once); HtmlEscape kills every "
-            "metacharacter for the table and range pre-filters regenerated from utils.rs. Tie: all registered filters "
-            "called on the real engine with every Safe/Normal argument pattern (exact model or class predicate + direct "
-            "'no data metacharacter in a Safe result' oracle), generated multi-template programs rendered by engine and "
-            "model (byte equality, no raw metacharacter, capture wrappers render identically), autoescape-region probes, "
-            "template-name probes, all Unicode scalars through upper/lower/capitalize.",
+    "text": "Kernel-checked: (1) machine level — a Safe string never holds a < > \" ' that came from data (Inv); every "
+            "primitive step (emit, capture, macro return, every operator/filter/method model incl. the safety-aware "
+            "replace/join/format/truncate) preserves Inv in Html mode; emit∘endCapture is the identity (escaped once); "
+            "HtmlEscape kills every metacharacter for the table and both range pre-filters regenerated from utils.rs. "
+            "(2) program level — program_no_raw_tainted_meta: for every program of the syntactic fragment HtmlOnlyP "
+            "(all template names select Html by default_auto_escape_callback, autoescape blocks true/\"html\", filters "
+            "modelled and not safe/tojson) and every context, execProg writes no data-tainted < > \" '. "
+            "(3) tables regenerated from source: all registered filter/function/pycompat-method names are classified; "
+            "every site that constructs a Safe string, calls preserve_safety or reads the bit (file::fn x count) is "
+            "accounted for. Tie: every filter/method called on the real engine with every Safe/Normal argument pattern "
+            "(exact model, or class predicate select/forward/normal/pieces, + direct 'no data metacharacter in a Safe "
+            "result' oracle); generated multi-template programs sent as AST to execProg, engine output byte-equal, no raw "
+            "metacharacter, capture wrappers render identically; autoescape-region and template-name probes through "
+            "execProg; all Unicode scalars through upper/lower/capitalize.",
     "design_ref": "DESIGN.md §3 C02",
-    "level_note": "Trusted: Lean kernel; hand transcription of utils.rs/output.rs/argtypes.rs/filters.rs safety branches into "
-                  "MJ/Model/Safe.lean (validated differentially, sampled); the flattening of generated templates to step "
-                  "sequences done by the harness (validated by byte-equal outputs); class predicates forward/normal for the "
-                  "filters without an exact model are validated on sampled argument shapes only; Unicode case mapping enters "
-                  "the theorems as the hypothesis Reflects, validated exhaustively per scalar value.",
+    "level_note": "Trusted: Lean kernel; hand transcription of utils.rs/output.rs/argtypes.rs/filters.rs/pycompat.rs safety "
+                  "branches and of the vm's mode/capture handling into MJ/Model/Safe.lean and MJ/Model/SafeProg.lean "
+                  "(validated differentially, sampled); the harness' rendering of an AST to template source text (validated "
+                  "by byte-equal outputs); class predicates for filters without an exact model are validated on sampled "
+                  "argument shapes only; Unicode case mapping enters as hypothesis Reflects, validated exhaustively per "
+                  "scalar value; macro names global, only top-level blocks, child-template statements outside blocks and "
+                  "import statements are not modelled.",
 }
 
 TABLES = ["HTML_ESCAPE_TABLE", "HTML_NEEDS_ESCAPING", "HTML_ESCAPE_FILTER_SUB", "SAFE_PRODUCER_SITES", "FILTER_NAMES",
@@ -258,6 +266,9 @@ def run(r):
             r.broken.append(f"`{n}` never evaluated successfully in stream F/C")
     r.extra["classes"] = {n: classes.get(n) for n in all_names}
     r.extra["n_cases"] = dict(r.hist["stream"])
+    r.extra["stage"] = ("programs/syntactic-fragment: theorem program_no_raw_tainted_meta is stated over template programs "
+                        "(HtmlOnlyP p -> output of execProg false p ctx is clean) and over the guarded interpreter "
+                        "(execProg true) without premise; the driver runs the guarded interpreter on generated programs")
 
 
 def replay(r, path):
